@@ -531,6 +531,48 @@ def _check_restore_loops_unfiltered(prog: Program, L: Ledger) -> None:
                             bad = st
                         if isinstance(p, ast.Call) and isinstance(p.func, ast.Name) and p.func.id in ("bool", "len") and p.args and isinstance(p.args[0], ast.Name) and p.args[0].id in loop_names:
                             bad = st
+            # where the replayed entries come from: the writer puts the "attributes" block at the top level of the
+            # dictionary, next to "kwargs" — a reader that looks for it inside the keyword dictionary finds nothing and
+            # silently restores no attribute at all
+            params_ = [a.arg for a in fdf.node.args.args]
+            dparam = params_[1] if len(params_) > 1 else None
+            binds_ = {}
+            for st_ in walk_no_nested(fdf.node):
+                if isinstance(st_, (ast.Assign, ast.AnnAssign)) and getattr(st_, "value", None) is not None:
+                    for t_ in (st_.targets if isinstance(st_, ast.Assign) else [st_.target]):
+                        if isinstance(t_, ast.Name):
+                            binds_.setdefault(t_.id, []).append(st_.value)
+
+            def _keypath(e, depth=0):
+                if depth > 8:
+                    return None
+                if isinstance(e, ast.Name):
+                    if e.id == dparam:
+                        return []
+                    vs = binds_.get(e.id, [])
+                    if len(vs) == 1:
+                        return _keypath(vs[0], depth + 1)
+                    return None
+                if isinstance(e, ast.Subscript) and isinstance(e.slice, ast.Constant) and isinstance(e.slice.value, str):
+                    b = _keypath(e.value, depth + 1)
+                    return None if b is None else b + [e.slice.value]
+                if isinstance(e, ast.Call):
+                    fn = norm(e.func)
+                    if fn in ("deepcopy", "copy.deepcopy", "copy.copy", "dict") and e.args:
+                        return _keypath(e.args[0], depth + 1)
+                    if isinstance(e.func, ast.Attribute):
+                        if e.func.attr in ("items", "copy") and not e.args:
+                            return _keypath(e.func.value, depth + 1)
+                        if e.func.attr in ("get", "pop", "setdefault") and e.args and isinstance(e.args[0], ast.Constant) and isinstance(e.args[0].value, str):
+                            b = _keypath(e.func.value, depth + 1)
+                            return None if b is None else b + [e.args[0].value]
+                return None
+
+            kp = _keypath(lp.iter) if dparam else None
+            if kp is not None and kp and kp[-1] == "attributes":
+                L.check(kp == ["attributes"], "T4", f"{fd.qualname}:restore-source", f"{fd.module.relpath}:{lp.lineno}",
+                        f"{fd.qualname} replays the entries found under {' → '.join(repr(k) for k in kp)} of its argument, but to_dict writes the attribute block at the top level ('attributes', next to 'kwargs'): nothing is ever found there and no attribute is restored",
+                        "a composite exchange move with bias_towards_insert ≠ 0.5 (or any move with max_attempts / default_label set) comes back from the restart file with the constructor defaults: the trajectories diverge at the first draw that falls between the two values", "restore-source")
             L.check(bad is None, "T4", f"{fd.qualname}:restore-unfiltered", f"{fd.module.relpath}:{(bad or lp).lineno}",
                     f"{fd.qualname} replays stored entries only when `{norm(bad.test)[:60] if bad is not None else ''}` is truthy: stored values that are 0, False or empty are skipped",
                     "default_label = 0 (or max_attempts = 0) is written to the restart file but the rebuilt move has the constructor default: after a restart inserted atoms get another label, the trajectories diverge", "restore-filter")
